@@ -31,7 +31,8 @@ RULE = ("kind workflow: crystal x primitive axes x NAC: `phonopy -d` (displaced 
         "kind calcflow: 15 calculators x (NAC from BORN with comment header | NAC inside the yaml): phonopy_params.yaml saved by the library with the calculator recorded only there, "
         "`phonopy-load` and `phonopy -c` q-points with NAC vs the library twin, summary file NAC factor and calculator; "
         "kind settings: every row of the option<->tag table of doc/command-options.md (parsed at run time) x both commands: Settings via option == Settings via conf tag and != default; "
-        "non-trivial = output file compared / settings differ from default; distinct = (workflow step) / (table row, command)")
+        "non-trivial = output file compared / settings differ from default; distinct = (workflow step) / (table row, command); "
+        "additions of rounds 6-8: BAND_CONST_INTERVAL effect from the reciprocal metric; further option effects against the documented library calls (pretend-real, band indices, cutoff, MP_SHIFT, gv-delta-q, cutoff radius, fc-spg-symmetry, xyz/direction PDOS, nac-method in its documented spellings, q-direction); hcp workflow in the quick tier")
 ASSUMPTIONS = [
     "phonopy-load is always given --fc-calc traditional equivalent behaviour is unavailable: symfc is absent, so force constants come from type-1 datasets with the built-in solver",
     "only VASP calculator outputs are synthesised for `-f`; LAMMPS/QE force files are not synthesised here (their structure I/O is covered by C17)",
